@@ -109,6 +109,9 @@ def explained_by(ctx, info):
     together cover every failing check of this case. Returns the list of ids, or None."""
     ids, covered = [], set()
     for fid, (sig, kinds) in KNOWN.items():
+        f = ctx.findings.get(fid)
+        if not f or f.get("status") != "known" or f.get("property") != ctx.pid.replace("scratch", ""):
+            continue        # a fixed / unregistered finding suppresses nothing
         sigs = (sig,) if isinstance(sig, str) else sig
         if any(x in info["sig"] for x in sigs) and info["fails"] & kinds:
             ids.append(fid)
